@@ -197,3 +197,65 @@ fn combining_one__and_or_xor_n2() {
 fn combining_one__and_or_xor_n3() {
     combining_one::<3>()
 }
+
+// ---------------------------------------------------------------------------
+// Precedence climbing on the REAL parser (`LogicalExpr::lex_with`), made reachable by
+// replacing the name registry lookup `Scheme::get` by its contract (linear search).
+use crate::ast::parse::FilterParser;
+use crate::lex::LexWith;
+use crate::scheme::verif_kani::common::scheme_named;
+
+/// Reference evaluation of a parsed tree over 4 boolean fields a, b, c, d.
+fn eval(e: &LogicalExpr, v: &[bool; 4], depth: u32) -> bool {
+    if depth == 0 {
+        return false;
+    }
+    match e {
+        LogicalExpr::Comparison(c) => match &c.lhs.identifier {
+            IdentifierExpr::Field(f) => v[f.index() & 3],
+            _ => false,
+        },
+        LogicalExpr::Parenthesized(p) => eval(&p.expr, v, depth - 1),
+        LogicalExpr::Unary { arg, .. } => !eval(arg, v, depth - 1),
+        LogicalExpr::Quantifier { .. } => false,
+        LogicalExpr::Combining { op, items } => {
+            let mut acc = match op {
+                LogicalOp::And => true,
+                _ => false,
+            };
+            let mut i = 0;
+            while i < items.len() {
+                let x = eval(&items[i], v, depth - 1);
+                acc = match op {
+                    LogicalOp::And => acc && x,
+                    LogicalOp::Or => acc || x,
+                    LogicalOp::Xor => acc ^ x,
+                };
+                i += 1;
+            }
+            acc
+        }
+    }
+}
+
+#[kani::proof]
+#[kani::unwind(8)]
+#[kani::stub(crate::scheme::Scheme::get, crate::scheme::verif_kani::common::scheme_get__contract)]
+fn parse_precedence__or_and_xor_concrete() {
+    let scheme = scheme_named(&[("a", Type::Bool), ("b", Type::Bool), ("c", Type::Bool), ("d", Type::Bool)], true);
+    let parser = FilterParser::new(&scheme);
+    let r = LogicalExpr::lex_with("a or b and c xor d", &parser);
+    let v: [bool; 4] = kani::any();
+    match &r {
+        Ok((e, rest)) => {
+            assert!(rest.is_empty(), "the whole input is consumed");
+            // binding strength and > xor > or:  a or ((b and c) xor d)
+            assert!(eval(e, &v, 6) == (v[0] || ((v[1] && v[2]) ^ v[3])), "binding strength and > xor > or");
+        }
+        Err(_) => {
+            assert!(false, "a well-typed filter must parse");
+        }
+    }
+    std::mem::forget(r);
+    std::mem::forget(scheme);
+}
